@@ -303,6 +303,51 @@ Section Generic.
     cbn [fst snd]. now rewrite !beqb_refl.
   Qed.
 
+  (* ---- sticky teardown: the same lookup as a resume ------------------------------ *)
+  Notation teardown_dec := (teardown_dec CT open).
+
+  Lemma resume_is_teardown reg j t : resume_dec reg j t = is_some (teardown_dec reg j t).
+  Proof.
+    unfold C13.resume_dec, C13.teardown_dec. destruct (open_slot Sticky j t); [|reflexivity].
+    destruct (existsb _ reg); reflexivity.
+  Qed.
+
+  Lemma teardown_some reg j re k i n sid x :
+    teardown_dec reg j (env re Sticky (mint k i n sid)) = Some x ->
+    k = Sticky /\ x = sid /\ token_aad Sticky j = token_aad k i /\ exists e, In e reg /\ fst e = sid.
+  Proof.
+    unfold C13.teardown_dec.
+    destruct (open_slot Sticky j (env re Sticky (mint k i n sid))) as [y|] eqn:O; [|discriminate].
+    apply open_slot_payload in O as [-> [-> E]].
+    destruct (existsb _ reg) eqn:X; [|discriminate]. intros H; inversion H; subst x.
+    apply existsb_exists in X as [e [He Hb]]. apply andb_true_iff in Hb as [Hb _]. apply beqb_eq in Hb.
+    repeat split; auto. exists e. auto.
+  Qed.
+
+  Lemma teardown_own reg j re n sid :
+    In (sid, principal_key j) reg -> teardown_dec reg j (env re Sticky (mint Sticky j n sid)) = Some sid.
+  Proof.
+    intros Hin. unfold C13.teardown_dec. rewrite open_slot_own.
+    replace (existsb _ reg) with true; [reflexivity|]. symmetry.
+    apply existsb_exists. exists (sid, principal_key j). split; [exact Hin|].
+    cbn [fst snd]. now rewrite !beqb_refl.
+  Qed.
+
+  (* every route on which a session token is presented refuses foreign tokens,
+     whatever the registry holds *)
+  Lemma sticky_route_refuses_foreign (r : sroute) reg j re k i n id :
+    valid_ident i = true -> valid_ident j = true ->
+    sticky_accepts CT open r reg j (env re Sticky (mint k i n id)) = true -> k = Sticky /\ i = j.
+  Proof.
+    intros Vi Vj H. apply (resume_accept_needs_own_sticky reg j re k i n id Vi Vj).
+    destruct r; cbn [C13.sticky_accepts] in H; [exact H | now rewrite resume_is_teardown].
+  Qed.
+
+  (* the two routes take the same decision *)
+  Lemma sticky_routes_agree (r r' : sroute) reg j t :
+    sticky_accepts CT open r reg j t = sticky_accepts CT open r' reg j t.
+  Proof. destruct r, r'; cbn [C13.sticky_accepts]; rewrite ?resume_is_teardown; reflexivity. Qed.
+
   (* ---- the cache: entries stored by other identities never matter -------------- *)
   Lemma has_key_keys k es :
     has_key k (keys es) = true <-> exists e, In e es /\ cache_key (fst e) (snd e) = k.
@@ -400,7 +445,10 @@ Section Spec.
   Definition tok_prov (t : token CT) (p : prov) : Prop :=
     let '(k, i, id) := p in exists n, t = mint k i n id.
 
-  Record inv (s : st CT) (ptoks : list prov) (nc ns : nat) (plast : option prov) : Prop := {
+  Lemma sessid_inj m m' : sessid m = sessid m' -> m = m'.
+  Proof. unfold sessid. intros H. inversion H. lia. Qed.
+
+  Record inv (s : st CT) (ptoks : list prov) (nc ns : nat) (plast : option prov) (dead : list bytes) : Prop := {
     inv_nc : s_ncalls CT s = nc;
     inv_ns : s_nsess CT s = ns;
     inv_toks : Forall2 tok_prov (s_toks CT s) ptoks;
@@ -409,7 +457,11 @@ Section Spec.
                | None, None => True
                | _, _ => False
                end;
-    inv_reg : forall i sid, In (Sticky, i, sid) ptoks -> In (sid, principal_key i) (s_reg CT s) }.
+    inv_reg : forall i sid, In (Sticky, i, sid) ptoks -> has_key sid dead = false ->
+              In (sid, principal_key i) (s_reg CT s);
+    inv_dead : forall sid, has_key sid dead = true -> forall e, In e (s_reg CT s) -> fst e <> sid;
+    inv_sids : forall i sid, In (Sticky, i, sid) ptoks -> exists m, (m < ns)%nat /\ sid = sessid m;
+    inv_dead_src : forall sid, has_key sid dead = true -> exists i, In (Sticky, i, sid) ptoks }.
 
   Lemma Forall2_nth {A B} (R : A -> B -> Prop) l l' n :
     Forall2 R l l' ->
@@ -422,8 +474,8 @@ Section Spec.
     intros F; revert n; induction F as [|a b l l' Hab F IH]; intros [|n]; cbn; auto. apply IH.
   Qed.
 
-  Lemma deref_cases s ptoks nc ns plast slot r :
-    inv s ptoks nc ns plast ->
+  Lemma deref_cases s ptoks nc ns plast dead slot r :
+    inv s ptoks nc ns plast dead ->
     match pderef ptoks plast r with
     | Some (k, i, id) => exists n re, deref s slot r = Some (env re slot (mint k i n id))
     | None => deref s slot r = None
@@ -431,54 +483,103 @@ Section Spec.
   Proof.
     intros I. destruct r as [|id re|re]; cbn [pderef C13.deref].
     - reflexivity.
-    - pose proof (Forall2_nth _ _ _ id (inv_toks _ _ _ _ _ I)) as H.
+    - pose proof (Forall2_nth _ _ _ id (inv_toks _ _ _ _ _ _ I)) as H.
       destruct (nth_error (s_toks CT s) id) as [t|], (nth_error ptoks id) as [[[k i] x]|]; try contradiction; auto.
       destruct H as [n ->]. exists n, re. reflexivity.
-    - pose proof (inv_last _ _ _ _ _ I) as H.
+    - pose proof (inv_last _ _ _ _ _ _ I) as H.
       destruct (s_last CT s) as [t|], plast as [[[k i] x]|]; try contradiction; auto.
       destruct H as [[n ->] _]. exists n, re. reflexivity.
   Qed.
 
-  Lemma pderef_sticky_in ptoks plast r i sid s nc ns :
-    inv s ptoks nc ns plast -> pderef ptoks plast r = Some (Sticky, i, sid) -> In (Sticky, i, sid) ptoks.
+  Lemma pderef_sticky_in ptoks plast r i sid s nc ns dead :
+    inv s ptoks nc ns plast dead -> pderef ptoks plast r = Some (Sticky, i, sid) -> In (Sticky, i, sid) ptoks.
   Proof.
     intros I. destruct r as [|id re|re]; cbn [pderef]; intros H.
     - discriminate.
     - eapply nth_error_In; eauto.
-    - pose proof (inv_last _ _ _ _ _ I) as L. rewrite H in L.
+    - pose proof (inv_last _ _ _ _ _ _ I) as L. rewrite H in L.
       destruct (s_last CT s); [|contradiction]. destruct L as [_ L]. cbn in L. discriminate.
   Qed.
 
   Lemma safe_false slot j p : safe slot j p false = true.
   Proof. reflexivity. Qed.
 
-  Lemma spec_run_holds ops : forall s ptoks nc ns plast,
-    inv s ptoks nc ns plast -> spec_run ids ops (run s ops) ptoks nc ns plast = true.
+  Lemma has_key_cons k x l : has_key k (x :: l) = beqb k x || has_key k l.
+  Proof. reflexivity. Qed.
+
+  (* one sticky presentation (either route): the decidable spec holds for the model's answer *)
+  Lemma sticky_spec_holds s ptoks nc ns plast dead tok j :
+    inv s ptoks nc ns plast dead ->
+    match deref s Sticky tok with
+    | None => pderef ptoks plast tok = None
+    | Some t =>
+        exists k i sid, pderef ptoks plast tok = Some (k, i, sid) /\
+          sticky_spec j (Some (k, i, sid)) dead (is_some (teardown_dec CT open (s_reg CT s) j t)) = true /\
+          forall x, teardown_dec CT open (s_reg CT s) j t = Some x -> x = sid /\ In (Sticky, i, sid) ptoks
+    end.
   Proof.
-    induction ops as [|o ops IH]; intros s ptoks nc ns plast I; [reflexivity|].
+    intros I. pose proof (deref_cases _ _ _ _ _ _ Sticky tok I) as Dt.
+    destruct (pderef ptoks plast tok) as [[[k i] sid]|] eqn:Pt; [|now rewrite Dt].
+    destruct Dt as [n [re ->]]. exists k, i, sid. split; [reflexivity|].
+    assert (TS : forall x, teardown_dec CT open (s_reg CT s) j (env re Sticky (mint k i n sid)) = Some x ->
+                 x = sid /\ In (Sticky, i, sid) ptoks).
+    { intros x T. apply (teardown_some CT seal open open_seal open_binds) in T as [-> [-> _]].
+      split; [reflexivity|]. eapply pderef_sticky_in; eauto. }
+    split; [|exact TS].
+    unfold sticky_spec. apply andb_true_iff; split.
+    - destruct (teardown_dec CT open (s_reg CT s) j (env re Sticky (mint k i n sid))) as [x|] eqn:T; [|reflexivity].
+      cbn [is_some safe]. unfold both_valid.
+      destruct (valid_ident i) eqn:Vi, (valid_ident j) eqn:Vj; cbn [andb]; auto.
+      apply (teardown_some CT seal open open_seal open_binds) in T as [-> [_ [E _]]].
+      destruct (aad_injective_lemma _ _ _ _ Vj Vi E) as [_ ->]. cbn [kind_eqb andb]. now apply ident_eqb_eq.
+    - destruct k; auto. destruct (has_key sid dead) eqn:D.
+      + destruct (teardown_dec CT open (s_reg CT s) j (env re Sticky (mint Sticky i n sid))) as [x|] eqn:T; [|reflexivity].
+        exfalso. apply (teardown_some CT seal open open_seal open_binds) in T as [_ [_ [_ [e [He Hf]]]]].
+        exact (inv_dead _ _ _ _ _ _ I sid D e He Hf).
+      + destruct (ident_eqb i j) eqn:E; auto. apply ident_eqb_eq in E. subst i.
+        rewrite (teardown_own CT seal open open_seal); [reflexivity|].
+        apply (inv_reg _ _ _ _ _ _ I); auto. eapply pderef_sticky_in; eauto.
+  Qed.
+
+  Lemma spec_run_holds ops : forall s ptoks nc ns plast dead,
+    inv s ptoks nc ns plast dead -> spec_run ids ops (run s ops) ptoks nc ns plast dead = true.
+  Proof.
+    induction ops as [|o ops IH]; intros s ptoks nc ns plast dead I; [reflexivity|].
     cbn [C13.run]. destruct (step s o) as [s' b] eqn:St.
-    destruct o as [who|who| |who cur call|who idx call|who tok]; cbn [C13.step] in St.
+    destruct o as [who|who| |who cur call|who idx call|who tok|who tok]; cbn [C13.step] in St.
     - (* OInit *)
       inversion St; subst s' b; clear St. cbn [spec_run andb].
-      rewrite <- (inv_nc _ _ _ _ _ I). apply IH. destruct I as [Inc Ins It Il Ir].
+      rewrite <- (inv_nc _ _ _ _ _ _ I). apply IH. destruct I as [Inc Ins It Il Ir Id Is Ids].
       constructor; cbn [s_ncalls s_nsess s_toks s_last s_reg]; auto.
       + apply Forall2_app; [exact It|]. repeat constructor; cbn; eexists; reflexivity.
       + intros i sid Hin. apply in_app_or in Hin as [Hin|Hin]; [auto|].
         cbn in Hin. destruct Hin as [H|[H|[]]]; discriminate.
+      + intros i sid Hin. apply in_app_or in Hin as [Hin|Hin]; [eauto|].
+        cbn in Hin. destruct Hin as [H|[H|[]]]; discriminate.
+      + intros sid D. destruct (Ids sid D) as [i Hi]. exists i. apply in_or_app. auto.
     - (* OOpen *)
       inversion St; subst s' b; clear St. cbn [spec_run andb].
-      rewrite <- (inv_ns _ _ _ _ _ I). apply IH. destruct I as [Inc Ins It Il Ir].
+      rewrite <- (inv_ns _ _ _ _ _ _ I). apply IH. destruct I as [Inc Ins It Il Ir Id Is Ids].
+      assert (Fresh : has_key (sessid (s_nsess CT s)) dead = false).
+      { destruct (has_key (sessid (s_nsess CT s)) dead) eqn:D; [|reflexivity]. exfalso.
+        destruct (Ids _ D) as [i Hi]. destruct (Is _ _ Hi) as [m [Hm E]].
+        apply sessid_inj in E. lia. }
       constructor; cbn [s_ncalls s_nsess s_toks s_last s_reg]; auto.
       + apply Forall2_app; [exact It|]. repeat constructor; cbn; eexists; reflexivity.
-      + intros i sid Hin. apply in_app_or in Hin as [Hin|Hin]; [right; auto|].
+      + intros i sid Hin D. apply in_app_or in Hin as [Hin|Hin]; [right; auto|].
         cbn in Hin. destruct Hin as [H|[]]. inversion H; subst. left. reflexivity.
+      + intros sid D e [<-|He]; [|eauto]. cbn [fst]. intros E. rewrite <- E in D. congruence.
+      + intros i sid Hin. apply in_app_or in Hin as [Hin|Hin].
+        * destruct (Is _ _ Hin) as [m [Hm E]]. exists m. split; [lia|exact E].
+        * cbn in Hin. destruct Hin as [H|[]]. inversion H; subst. exists (s_nsess CT s). split; [lia|reflexivity].
+      + intros sid D. destruct (Ids sid D) as [i Hi]. exists i. apply in_or_app. auto.
     - (* OReset *)
       inversion St; subst s' b; clear St. cbn [spec_run andb]. apply IH.
-      destruct I as [Inc Ins It Il Ir]. constructor; auto.
+      destruct I as [Inc Ins It Il Ir Id Is Ids]. constructor; auto.
     - (* OContinue *)
       cbn [spec_run].
-      pose proof (deref_cases _ _ _ _ _ Cursor cur I) as Dc.
-      pose proof (deref_cases _ _ _ _ _ Call call I) as Dk.
+      pose proof (deref_cases _ _ _ _ _ _ Cursor cur I) as Dc.
+      pose proof (deref_cases _ _ _ _ _ _ Call call I) as Dk.
       set (j := idof ids who) in *.
       destruct (pderef ptoks plast cur) as [[[k i] c]|] eqn:Pc.
       2:{ rewrite Dc in St. inversion St; subst s' b. cbn [safe andb]. apply IH, I. }
@@ -500,7 +601,7 @@ Section Spec.
         apply andb_true_iff; split; [apply andb_true_iff; split; [exact S1|]|].
         { destruct (pderef ptoks plast call) as [[[[] ?] ?]|]; auto. destruct (_ && _); auto. }
         apply IH.
-        destruct I as [Inc Ins It Il Ir]. constructor; cbn [s_ncalls s_nsess s_toks s_last s_reg]; auto.
+        destruct I as [Inc Ins It Il Ir Id Is Ids]. constructor; cbn [s_ncalls s_nsess s_toks s_last s_reg]; auto.
         split; [eexists; reflexivity | reflexivity].
       + (* refused *)
         inversion St; subst s' b; clear St. rewrite safe_false. cbn [andb].
@@ -521,30 +622,38 @@ Section Spec.
       cbn [spec_run].
       destruct (resolve_dec CT open (s_cache CT s) (idof ids who) (callid idx) (deref s Call call)) as [p|];
         inversion St; subst s' b; clear St; apply IH; [|exact I].
-      destruct I as [Inc Ins It Il Ir]. constructor; auto.
+      destruct I as [Inc Ins It Il Ir Id Is Ids]. constructor; auto.
     - (* OResume *)
-      cbn [spec_run].
-      pose proof (deref_cases _ _ _ _ _ Sticky tok I) as Dt.
-      set (j := idof ids who) in *.
-      destruct (pderef ptoks plast tok) as [[[k i] sid]|] eqn:Pt.
-      2:{ rewrite Dt in St. inversion St; subst s' b. cbn [safe andb]. apply IH, I. }
-      destruct Dt as [n [re Dt]]. rewrite Dt in St. inversion St; subst s' b; clear St.
-      assert (S1 : safe Sticky j (Some (k, i, sid)) (resume_dec CT open (s_reg CT s) j (env re Sticky (mint k i n sid))) = true).
-      { destruct (resume_dec CT open (s_reg CT s) j (env re Sticky (mint k i n sid))) eqn:R; [|reflexivity].
-        cbn [safe]. unfold both_valid. destruct (valid_ident i) eqn:Vi, (valid_ident j) eqn:Vj; cbn [andb]; auto.
-        apply (resume_accept_needs_own_sticky CT seal open open_seal open_binds) in R as [-> ->]; auto.
-        cbn [kind_eqb andb]. now apply ident_eqb_eq. }
-      assert (S2 : match k with
-                   | Sticky => if ident_eqb i j then resume_dec CT open (s_reg CT s) j (env re Sticky (mint k i n sid)) else true
-                   | _ => true end = true).
-      { destruct k; auto. destruct (ident_eqb i j) eqn:E; auto. apply ident_eqb_eq in E. subst i.
-        apply (resume_own_accepts CT seal open open_seal).
-        apply (inv_reg _ _ _ _ _ I). eapply pderef_sticky_in; eauto. }
-      apply andb_true_iff; split; [apply andb_true_iff; split; [exact S1 | exact S2] | apply IH, I].
+      cbn [spec_run]. set (j := idof ids who) in *.
+      pose proof (sticky_spec_holds _ _ _ _ _ _ tok j I) as SS.
+      destruct (deref s Sticky tok) as [t|].
+      + destruct SS as [k [i [sid [-> [S _]]]]]. inversion St; subst s' b; clear St.
+        rewrite (resume_is_teardown CT open). apply andb_true_iff; split; [exact S | apply IH, I].
+      + rewrite SS. inversion St; subst s' b. apply IH, I.
+    - (* OTeardown *)
+      cbn [spec_run]. set (j := idof ids who) in *.
+      pose proof (sticky_spec_holds _ _ _ _ _ _ tok j I) as SS.
+      destruct (deref s Sticky tok) as [t|].
+      2:{ rewrite SS. inversion St; subst s' b. apply IH, I. }
+      destruct SS as [k [i [sid [-> [S TS]]]]].
+      destruct (teardown_dec CT open (s_reg CT s) j t) as [x|] eqn:T.
+      2:{ inversion St; subst s' b. apply andb_true_iff; split; [exact S | apply IH, I]. }
+      inversion St; subst s' b; clear St. cbn [is_some] in S.
+      apply andb_true_iff; split; [exact S|]. destruct (TS x eq_refl) as [-> Hin].
+      apply IH. destruct I as [Inc Ins It Il Ir Id Is Ids].
+      constructor; cbn [s_ncalls s_nsess s_toks s_last s_reg]; auto.
+      + intros i' sid' Hin' D. rewrite has_key_cons in D. apply orb_false_iff in D as [D1 D2].
+        apply filter_In. split; [auto|]. cbn [fst]. now rewrite D1.
+      + intros sid' D e He Hf. apply filter_In in He as [He Hn].
+        rewrite has_key_cons in D. apply orb_true_iff in D as [D|D].
+        * apply beqb_eq in D. subst sid'. rewrite Hf, beqb_refl in Hn. discriminate.
+        * exact (Id sid' D e He Hf).
+      + intros sid' D. rewrite has_key_cons in D. apply orb_true_iff in D as [D|D]; [|eauto].
+        apply beqb_eq in D. subst sid'. eauto.
   Qed.
 
-  Lemma inv0 : inv (st0 CT) [] 0 0 None.
-  Proof. constructor; cbn; auto. Qed.
+  Lemma inv0 : inv (st0 CT) [] 0 0 None [].
+  Proof. constructor; cbn; auto; try discriminate. intros ? ? []. Qed.
 End Spec.
 
 Lemma model_meets_spec : forall i, spec_ok i (model i) = true.
@@ -641,7 +750,7 @@ Section Reach.
   Lemma step_J s ow o : J s ow -> J (fst (step s o)) (ow ++ owners ids [o]).
   Proof.
     intros [Jn Jv Jt [es [Jc Je]]].
-    destruct o as [who|who| |who cur call|who idx call|who tok]; cbn [C13.step owners fst];
+    destruct o as [who|who| |who cur call|who idx call|who tok|who tok]; cbn [C13.step owners fst];
       rewrite ?app_nil_r.
     - (* OInit *)
       set (i := idof ids who). set (c := callid (s_ncalls CT s)).
@@ -699,6 +808,9 @@ Section Reach.
       exists es'. split; [exact E|]. intros e He. destruct (H e He) as [->|He']; auto.
     - (* OResume *)
       destruct (deref s Sticky tok); constructor; eauto.
+    - (* OTeardown: the registry changes, tokens and cache do not *)
+      destruct (deref s Sticky tok) as [t|]; [|constructor; eauto].
+      destruct (teardown_dec CT open (s_reg CT s) (idof ids who) t); constructor; eauto.
   Qed.
 
   Lemma exec_J ops : forall s ow, J s ow -> J (exec s ops) (ow ++ owners ids ops).
@@ -782,5 +894,5 @@ Proof. exists (Auth [97; 0; 98] [99]), (Auth [97] [98; 0; 99]). split; [discrimi
 Lemma spec_any_aead (CT : Type) (seal : N -> bytes -> payload -> CT) (open : bytes -> CT -> option payload) :
   (forall n a p, open a (seal n a p) = Some p) ->
   (forall n a a' p p', open a' (seal n a p) = Some p' -> a' = a) ->
-  forall ids ops, spec_run ids ops (run CT seal open ids (st0 CT) ops) [] 0 0 None = true.
+  forall ids ops, spec_run ids ops (run CT seal open ids (st0 CT) ops) [] 0 0 None [] = true.
 Proof. intros H1 H2 ids ops. apply (spec_run_holds CT seal open H1 H2). apply inv0. Qed.
